@@ -8,6 +8,7 @@ from harness.dsim import DExplore, make_jobs, NAMES  # noqa: E402
 CONFIGS = {
     "one-way": dict(app=True),
     "two-way": dict(app=True, both_write=True),
+    "back-pressure": dict(app=True, throttle=True),
 }
 
 
